@@ -19,6 +19,8 @@ struct SendSpec {
     to_self_by_id: bool,
     /// the literal id attribute (a send may reuse the id of the send before it)
     id: String,
+    /// event name, target and namelist value come from variables that are overwritten right after the <send>
+    by_vars: bool,
 }
 
 #[derive(Clone, Debug, PartialEq)]
@@ -104,6 +106,7 @@ fn scenario(rng: &mut Rng, thorough: bool, dm: &str) -> Outcome {
             cancel,
             use_idlocation,
             to_self_by_id: rng.chance(1, 4),
+            by_vars: rng.chance(1, 3),
         });
     }
     // program order of the sends is the index order; the delays are random so due order differs
@@ -111,18 +114,36 @@ fn scenario(rng: &mut Rng, thorough: bool, dm: &str) -> Outcome {
     let mut data = String::from("<data id=\"v\" expr=\"100\"/><data id=\"me\" expr=\"0\"/><data id=\"loc\" expr=\"''\"/>");
     for s in &sends {
         data.push_str(&format!("<data id=\"del_{}\" expr=\"'{}'\"/>", s.uid, s.spelling));
+        if s.by_vars {
+            data.push_str(&format!("<data id=\"evn_{u}\" expr=\"'d.{u}'\"/><data id=\"tgt_{u}\" expr=\"''\"/><data id=\"nv_{u}\" expr=\"7\"/>", u = s.uid));
+        }
     }
     for (i, s) in sends.iter().enumerate() {
         let idattr = if s.use_idlocation { "idlocation=\"loc\"".to_string() } else { format!("id=\"{}\"", s.id) };
         let delayattr = if i % 3 == 2 { format!("delayexpr=\"del_{}\"", s.uid) } else { format!("delay=\"{}\"", s.spelling) };
-        let target = if s.to_self_by_id { " targetexpr=\"'#_scxml_' + toString(_sessionid)\"" } else { "" };
+        let target = if s.by_vars {
+            format!(" targetexpr=\"tgt_{u}\" namelist=\"nv_{u}\"", u = s.uid)
+        } else if s.to_self_by_id {
+            " targetexpr=\"'#_scxml_' + toString(_sessionid)\"".to_string()
+        } else {
+            String::new()
+        };
+        let event = if s.by_vars { format!("eventexpr=\"evn_{}\"", s.uid) } else { format!("event=\"d.{}\"", s.uid) };
         body.push_str(&format!(
-            "<script>mark('sb', '{u}')</script><send {id} event=\"d.{u}\" {delay}{target}><param name=\"v\" expr=\"v\"/><param name=\"u\" expr=\"'{u}'\"/></send><script>mark('sa', '{u}')</script>\n<assign location=\"v\" expr=\"v + 1\"/>\n",
+            "<script>mark('sb', '{u}')</script><send {id} {event} {delay}{target}><param name=\"v\" expr=\"v\"/><param name=\"u\" expr=\"'{u}'\"/></send><script>mark('sa', '{u}')</script>\n<assign location=\"v\" expr=\"v + 1\"/>\n",
             u = s.uid,
             id = idattr,
+            event = event,
             delay = delayattr,
             target = target
         ));
+        if s.by_vars {
+            // every argument of the <send> was evaluated when it executed: what the variables hold afterwards is irrelevant
+            body.push_str(&format!(
+                "<assign location=\"evn_{u}\" expr=\"'d.wrong'\"/><assign location=\"tgt_{u}\" expr=\"'#_scxml_987654'\"/><assign location=\"nv_{u}\" expr=\"nv_{u} + 1\"/>\n",
+                u = s.uid
+            ));
+        }
         if s.cancel == Some(CancelHow::Immediately) {
             if s.use_idlocation {
                 body.push_str(&format!("<script>mark('cb', '{u}')</script><cancel sendidexpr=\"loc\"/><script>mark('ca', '{u}')</script>\n", u = s.uid));
@@ -157,7 +178,8 @@ fn scenario(rng: &mut Rng, thorough: bool, dm: &str) -> Outcome {
  <state id="a">
   <transition event="go">
 {body}  </transition>
-{later}  <transition event="d"><script>mark('rv', _event.data.u, _event.data.v)</script></transition>
+{later}  <transition event="d"><script>mark('rv', _event.data.u, _event.data.v, _event.name, _event.data)</script></transition>
+  <transition event="error.communication"><script>mark('errcomm')</script></transition>
   <transition event="sentinel"><script>mark('sentinel')</script></transition>
  </state>
 </scxml>"##,
@@ -252,12 +274,14 @@ fn scenario(rng: &mut Rng, thorough: bool, dm: &str) -> Outcome {
             out.timeline.push(format!("{:>9}us seq={} thread={} session={} {}({})", us, e.seq, e.tid, session, tag, args.iter().map(|a| a.show()).collect::<Vec<_>>().join(",")));
         }
     }
+    let mut rv_extra: HashMap<String, (V, V)> = HashMap::new();
     let mut rv: HashMap<String, Vec<(Instant, V, u64)>> = HashMap::new();
     for e in &log {
         if let Ev::Mark { tag, args, session, .. } = &e.ev {
             if tag == "rv" && *session == sid {
                 if let Some(V::Str(u)) = args.first() {
                     rv.entry(u.clone()).or_default().push((e.t, args.get(1).cloned().unwrap_or(V::NoneV), e.seq));
+                    rv_extra.insert(u.clone(), (args.get(2).cloned().unwrap_or(V::NoneV), args.get(3).cloned().unwrap_or(V::NoneV)));
                 }
             }
         }
@@ -304,6 +328,25 @@ fn scenario(rng: &mut Rng, thorough: bool, dm: &str) -> Outcome {
                     "payload-not-evaluated-at-send-time".into(),
                     format!("event {} carries v = {} but v was {} when the <send> executed", s.uid, val.show(), want),
                 ));
+            }
+            if s.by_vars {
+                if let Some((name, data)) = rv_extra.get(&s.uid) {
+                    let name_ok = matches!(name, V::Str(n) if *n == format!("d.{}", s.uid));
+                    let nv_ok = match data {
+                        V::Map(m) => match m.get(&format!("nv_{}", s.uid)) {
+                            Some(V::Int(7)) => true,
+                            Some(V::Dbl(x)) => *x == 7.0,
+                            _ => false,
+                        },
+                        _ => false,
+                    };
+                    if !name_ok || !nv_ok {
+                        out.violations.push((
+                            "send-arguments-not-evaluated-at-send-time".into(),
+                            format!("event {}: eventexpr / namelist variables were overwritten after the <send>; it arrived as {} with data {} (expected name d.{} and nv_{} = 7)", s.uid, name.show(), data.show(), s.uid, s.uid),
+                        ));
+                    }
+                }
             }
             if effective_cancel {
                 if let Some(ca) = ca {
